@@ -222,6 +222,16 @@ func c18Bases() []c18Base {
 			uses:  map[string][]string{"alay.tw": {"b", "c/d"}},
 		},
 		{
+			// a layout that no page uses, with a component of its own: the component is a file the tree depends on all the same
+			files: map[string]string{
+				"home.tw":   "plain",
+				"lonely.tw": "<l>@reserve(\"r\")@component(\"box\", {n: 1})</l>",
+				"box.tw":    "[box{{ 1 + 1 }}]",
+			},
+			pages: map[string]string{"home": "plain", "box": "[box2]"},
+			uses:  map[string][]string{"box.tw": {"lonely"}},
+		},
+		{
 			// per cent signs in file, layout and component names (they must come through error messages unharmed)
 			files: map[string]string{
 				"p%d.tw":      "@use(\"lay%s\")@insert(\"c\")X@component(\"c%v/card\")@end",
@@ -413,10 +423,73 @@ func c18CheckReserveFiles(cs c18Case) (bool, string, string, string) {
 	return true, "", expected, "not renderable"
 }
 
+// c18CheckCwd: a relative directory spelling means "relative to the working directory at the time of the load".
+// Two different trees sit under the same relative spelling in two working directories; the process loads the first,
+// changes its working directory, and loads the second (optionally with a fault in it): the second load must see the
+// second tree only.
+var c18CwdSpells = []struct{ dir, real string }{{"t", "t"}, {"./t/", "t"}, {"r/../t", "t"}, {".", "."}, {"r/t", "r/t"}}
+
+func c18CheckCwd(cs c18Case) (ok bool, sig, expected, observed string) {
+	root := enterScratch()
+	defer func() { must(os.Chdir(root)) }()
+	sp := c18CwdSpells[cs.Spell%len(c18CwdSpells)]
+	a := Tree{Dir: sp.dir, RealDir: filepath.Join("w1", sp.real), Ext: ".tw", Extra: []string{"w1/r", "w2/r"},
+		Files: map[string]string{"lay.tw": `<A>@reserve("w")</A>`, "home.tw": `@use("lay")@insert("w")homeA@end`, "only-a.tw": "onlyA"}}
+	b := Tree{Dir: sp.dir, RealDir: filepath.Join("w2", sp.real), Ext: ".tw",
+		Files: map[string]string{"lay.tw": `<B>@reserve("w")</B>`, "home.tw": `@use("lay")@insert("w")homeB@end`, "only-b.tw": "onlyB"}}
+	switch cs.Fault {
+	case "deleted":
+		delete(b.Files, "lay.tw")
+	case "garbage":
+		b.Files["only-b.tw"] = "{{ 1 + }}"
+	}
+	a.write()
+	b.writeKeep()
+	feat := fmt.Sprintf("%s/spell:%s", cs.Fault, sp.dir)
+	must(os.Chdir(filepath.Join(root, "w1")))
+	ta, lo := a.loadKeep()
+	expected = "each load resolves the relative directory against the working directory of that moment"
+	if lo.Kind != KOut {
+		return false, "cwd/first-load-failed/" + feat, expected, lo.String()
+	}
+	if o := render(ta, "home", nil); o.Kind != KOut || o.Out != "<A>homeA</A>" {
+		return false, "cwd/first-tree-wrong/" + feat, expected, o.String()
+	}
+	must(os.Chdir(filepath.Join(root, "w2")))
+	tb, lo := b.loadKeep()
+	if lo.Kind == KPanic || lo.Kind == KHang {
+		return false, "cwd/" + lo.Kind + "@" + lo.Site, expected, lo.String()
+	}
+	if cs.Fault != "" {
+		if lo.Kind == KOut {
+			return false, "cwd/faulty-second-tree-loaded/" + feat, expected + "; the second tree is faulty (" + cs.Fault + ")", "loaded: " + strings.Join(textwire.VerifProgramNames(tb), ",")
+		}
+		return true, "", expected, lo.String()
+	}
+	if lo.Kind != KOut {
+		return false, "cwd/second-load-failed/" + feat, expected, lo.String()
+	}
+	names := textwire.VerifProgramNames(tb)
+	sort.Strings(names)
+	if strings.Join(names, ",") != "home,only-b" {
+		return false, "cwd/second-tree-names/" + feat, expected + ": home,only-b", strings.Join(names, ",")
+	}
+	if o := render(tb, "home", nil); o.Kind != KOut || o.Out != "<B>homeB</B>" {
+		return false, "cwd/second-tree-content/" + feat, expected, o.String()
+	}
+	if o := render(ta, "home", nil); o.Kind != KOut || o.Out != "<A>homeA</A>" {
+		return false, "cwd/first-template-changed/" + feat, expected, o.String()
+	}
+	return true, "", expected, "ok"
+}
+
 func c18Check(cs c18Case) (bool, string, string, string) {
 	rt.ResetRoot()
 	if cs.Mode == "reserve-files" {
 		return c18CheckReserveFiles(cs)
+	}
+	if cs.Mode == "cwd" {
+		return c18CheckCwd(cs)
 	}
 	if cs.Mode == "tree" {
 		return c18CheckTree(cs)
@@ -494,6 +567,16 @@ func c18Run(c *Ctx) {
 			}
 		}
 	}
+	// (d) the working directory changes between two loads of the same relative spelling
+	if c.Mine() {
+		for sp := range c18CwdSpells {
+			for _, flt := range []string{"", "deleted", "garbage"} {
+				if !do(c18Case{Mode: "cwd", Spell: sp, Fault: flt}, true) {
+					return
+				}
+			}
+		}
+	}
 	// (a) trees
 	maxFiles := 3
 	if c.Thorough() {
@@ -540,7 +623,7 @@ func init() {
 	p := &Property{
 		ID:    "C18",
 		Level: "fault_enumeration",
-		Rule: "trees: every set of <=k files out of 15 candidate names (four nesting depths; names ending in the extension, containing it in the middle, followed by .bak, doubled extension, a directory whose name contains the extension, a hidden file, a name that is only the extension) x 3 extensions x 12 directory spellings (trailing slashes, ./, /., parent segments, nested, and four that resolve to the working directory itself) x first file layout or not: the registered names must be exactly the relative paths minus extension of the files whose name ends in the extension, each renders its content, layouts and unknown names are not found, EvaluateFile equals EvaluateString; faults: for every file of three valid trees (pages, layouts, components, ~ aliases): deleted, dangling symlink, a directory in its place, truncated at every byte prefix, replaced by each of 12 garbage inputs — each both on a fresh process state and after the intact tree had been loaded once in the same process. " +
+		Rule: "trees: every set of <=k files out of 15 candidate names (four nesting depths; names ending in the extension, containing it in the middle, followed by .bak, doubled extension, a directory whose name contains the extension, a hidden file, a name that is only the extension) x 3 extensions x 12 directory spellings (trailing slashes, ./, /., parent segments, nested, and four that resolve to the working directory itself) x first file layout or not: the registered names must be exactly the relative paths minus extension of the files whose name ends in the extension, each renders its content, layouts and unknown names are not found, EvaluateFile equals EvaluateString; faults: for every file of three valid trees (pages, layouts, components, ~ aliases): deleted, dangling symlink, a directory in its place, truncated at every byte prefix, replaced by each of 12 garbage inputs — each both on a fresh process state and after the intact tree had been loaded once in the same process; five shapes of reserve-declaring files; working-directory histories: two different trees under the same relative spelling in two working directories, loaded one after the other by one process (5 spellings x second tree intact / layout deleted / page garbage). " +
 			"Oracle for faults: never (tpl, err) / (nil, nil) / panic / hang; a syntactically wrong file or a missing/unreadable layout or component of a page makes loading fail with an error identifying the file; a removed page is simply absent and everything else renders as before. Non-trivial: every fault case; tree cases with a non-canonical spelling or a tricky file name",
 		Bounds: func(tier string) map[string]any {
 			nf := 0
